@@ -1,6 +1,8 @@
 //! hx: drives the real adsb_deku / rsadsb_common code and records what it did as ndjson events.
 //! The judgement of every event is made by TLC against the TLA+ specification, never here.
 mod project;
+#[cfg(feature = "std")]
+mod reader;
 mod track;
 
 use std::alloc::{GlobalAlloc, Layout, System};
@@ -302,6 +304,8 @@ fn main() {
         Some("decode") => cmd_decode(&args[2..]),
         Some("pair") => cmd_pair(),
         Some("track") => track::cmd_track(),
+        #[cfg(feature = "std")]
+        Some("reader") => reader::cmd_reader(),
         Some("nlsweep") => cmd_nlsweep(),
         Some("config") => {
             println!("{}", if cfg!(feature = "std") { "std" } else { "alloc" });
